@@ -42,20 +42,21 @@ type CmdDef struct {
 }
 
 type Scenario struct {
-	Root      CmdDef      `json:"root"`
-	Help      bool        `json:"help_command,omitempty"`
-	HelpAlias bool        `json:"help_alias,omitempty"`
-	HelpName  string      `json:"help_name,omitempty"`  // name of the help command/option ("help" when empty)
-	DescStyle int         `json:"desc_style,omitempty"` // 0 plain descriptions; 1 with newlines and tabs; 2 with format verbs; 3 very long
-	Mode      int         `json:"mode"`
-	Unknown   int         `json:"unknown_mode"`
-	Lower     bool        `json:"map_keys_to_lower,omitempty"`
-	SelfEmpty bool        `json:"self_empty_name,omitempty"` // opt.Self("", description): the name comes from the executable
-	Argv      []string    `json:"argv"`
-	Env       [][2]string `json:"env,omitempty"`
-	CompLine  string      `json:"comp_line"`
-	FnErr     bool        `json:"command_fn_error,omitempty"` // command functions return their own error
-	Ctx       string      `json:"dispatch_ctx,omitempty"`     // "" background; "cancelled" before Dispatch; "fn" the command function cancels it; "deadline" already expired
+	Root       CmdDef      `json:"root"`
+	Help       bool        `json:"help_command,omitempty"`
+	HelpAlias  bool        `json:"help_alias,omitempty"`
+	HelpName   string      `json:"help_name,omitempty"`  // name of the help command/option ("help" when empty)
+	DescStyle  int         `json:"desc_style,omitempty"` // 0 plain descriptions; 1 with newlines and tabs; 2 with format verbs; 3 very long
+	Mode       int         `json:"mode"`
+	Unknown    int         `json:"unknown_mode"`
+	Lower      bool        `json:"map_keys_to_lower,omitempty"`
+	SelfEmpty  bool        `json:"self_empty_name,omitempty"` // opt.Self("", description): the name comes from the executable
+	Argv       []string    `json:"argv"`
+	Env        [][2]string `json:"env,omitempty"`
+	CompLine   string      `json:"comp_line"`
+	NoDispatch bool        `json:"no_dispatch,omitempty"`      // the program never calls Dispatch (it inspects the remaining arguments itself)
+	FnErr      bool        `json:"command_fn_error,omitempty"` // command functions return their own error
+	Ctx        string      `json:"dispatch_ctx,omitempty"`     // "" background; "cancelled" before Dispatch; "fn" the command function cancels it; "deadline" already expired
 }
 
 var kindNames = []string{"Bool", "Increment", "String", "Int", "Float64", "StringOptional", "IntOptional", "Float64Optional", "StringSlice", "IntSlice", "Float64Slice", "StringMap", "StringMapVar(prefilled)", "StringSliceVar(prefilled)", "StringVar"}
@@ -154,6 +155,9 @@ func genOpts(r *simrt.RNG, taken map[string]bool, n int, reqBias int) []OptDef {
 				if r.Intn(4) == 0 {
 					o.Valid = append(o.Valid, o.Valid[0])
 				}
+			case 2: // a table of levels: some of them valid, and more suggested on top
+				o.Valid = []string{"debug", "info", "warn"}[:2+r.Intn(2)]
+				o.Suggested = []string{"trace", "error"}[:1+r.Intn(2)]
 			case 1:
 				o.Suggested = []string{"alpha", "beta", "gamma", "alps"}[:2+r.Intn(3)]
 				if r.Intn(2) == 0 { // values that look like an unfinished assignment
@@ -282,6 +286,9 @@ func valueFor(r *simrt.RNG, o *OptDef) string {
 	case 3, 6:
 		return []string{"1", "42", "-3", "x1"}[r.Intn(4)]
 	case 9:
+		if r.Intn(60) == 0 {
+			return "1..40000" // a range large enough for any "worth doing in parallel" threshold
+		}
 		return []string{"1", "42", "-3", "x1", "1..3", "5..2"}[r.Intn(6)]
 	case 4, 7, 10:
 		return []string{"1.5", "2", "abc"}[r.Intn(3)]
@@ -300,6 +307,9 @@ func Generate(seed uint64) *Scenario {
 	reqBias := []int{0, 15, 35, 60}[r.Intn(4)]
 	taken := map[string]bool{"help": true}
 	sc.Root = CmdDef{Name: "prog", Fn: r.Intn(2) == 0}
+	if r.Intn(4) == 0 {
+		sc.Root.Synopsis = []string{"<src>", "<dst>", "<mode>"}[:1+r.Intn(3)]
+	}
 	sc.Root.Opts = genOpts(r, taken, 2+r.Intn(7), reqBias)
 	if r.Intn(4) == 0 {
 		sc.Root.ArgComp = []string{"apple", "apricot", "banana"}
@@ -363,6 +373,7 @@ func Generate(seed uint64) *Scenario {
 	}
 	sc.DescStyle = []int{0, 0, 0, 1, 2, 3}[r.Intn(6)]
 	sc.FnErr = r.Intn(4) == 0
+	sc.NoDispatch = r.Intn(6) == 0
 	sc.Ctx = []string{"", "", "", "", "cancelled", "fn", "deadline"}[r.Intn(7)]
 	sc.Mode = r.Intn(3)
 	sc.Unknown = r.Intn(3)
